@@ -29,33 +29,34 @@ type c09Tx struct {
 }
 
 var (
-	c09txs        = core.RegCounter("c09.transactions")
-	c09batches    = core.RegCounter("c09.batches_verified")
-	c09entries    = core.RegCounter("c09.batch_entries")
-	c09big95      = core.RegCounter("c09.batches_with_95_or_more_entries")
-	c09big190     = core.RegCounter("c09.batches_with_190_or_more_entries")
-	c09empty      = core.RegCounter("c09.empty_batches_verified")
-	c09reset      = core.RegCounter("c09.verifier_reused_after_reset")
-	c09force      = core.RegCounter("c09.force_no_expansion")
-	c09batchOnly  = core.RegCounter("c09.verify_batch_only_calls")
-	c09boTrue     = core.RegCounter("c09.verify_batch_only_true")
-	c09mixed      = core.RegCounter("c09.batches_mixing_valid_and_invalid")
-	c09cofless    = core.RegCounter("c09.batches_with_cofactorless_entry")
-	c09cancel     = core.RegCounter("c09.cancelling_pairs")
-	c09cancelInB  = core.RegCounter("c09.cancelling_pair_in_same_batch")
-	c09entPanic   = core.RegCounter("c09.entropy_error_surfaced_as_documented_panic")
-	c09entErrOK   = core.RegCounter("c09.entropy_error_with_correct_results")
-	c09single     = core.RegCounter("c09.single_path_decisions")
-	c09expanded   = core.RegCounter("c09.expanded_path_decisions")
-	c09cached     = core.RegCounter("c09.cached_path_decisions")
-	c09accept     = core.RegCounter("c09.model_decisions_valid")
-	c09reject     = core.RegCounter("c09.model_decisions_invalid")
-	c09craftedAcc = core.RegCounter("c09.crafted_entries_single_accepts")
-	c09craftedRej = core.RegCounter("c09.crafted_entries_single_rejects")
-	c09docPanic   = core.RegCounter("c09.single_documented_panics_counted_invalid")
-	c09nodes      = core.RegCounter("c09.nodes")
-	c09lru        = core.RegCounter("c09.nodes_with_real_lru")
-	c09stub       = core.RegCounter("c09.nodes_with_adversarial_stub_cache")
+	c09txs         = core.RegCounter("c09.transactions")
+	c09batches     = core.RegCounter("c09.batches_verified")
+	c09entries     = core.RegCounter("c09.batch_entries")
+	c09big95       = core.RegCounter("c09.batches_with_95_or_more_entries")
+	c09big190      = core.RegCounter("c09.batches_with_190_or_more_entries")
+	c09empty       = core.RegCounter("c09.empty_batches_verified")
+	c09reset       = core.RegCounter("c09.verifier_reused_after_reset")
+	c09force       = core.RegCounter("c09.force_no_expansion")
+	c09batchOnly   = core.RegCounter("c09.verify_batch_only_calls")
+	c09boTrue      = core.RegCounter("c09.verify_batch_only_true")
+	c09mixed       = core.RegCounter("c09.batches_mixing_valid_and_invalid")
+	c09cofless     = core.RegCounter("c09.batches_with_cofactorless_entry")
+	c09cancel      = core.RegCounter("c09.cancelling_pairs")
+	c09cancelInB   = core.RegCounter("c09.cancelling_pair_in_same_batch")
+	c09entPanic    = core.RegCounter("c09.entropy_error_surfaced_as_documented_panic")
+	c09entErrOK    = core.RegCounter("c09.entropy_error_with_correct_results")
+	c09single      = core.RegCounter("c09.single_path_decisions")
+	c09expanded    = core.RegCounter("c09.expanded_path_decisions")
+	c09cached      = core.RegCounter("c09.cached_path_decisions")
+	c09accept      = core.RegCounter("c09.model_decisions_valid")
+	c09reject      = core.RegCounter("c09.model_decisions_invalid")
+	c09craftedAcc  = core.RegCounter("c09.crafted_entries_single_accepts")
+	c09craftedRej  = core.RegCounter("c09.crafted_entries_single_rejects")
+	c09docPanic    = core.RegCounter("c09.single_documented_panics_counted_invalid")
+	c09nodes       = core.RegCounter("c09.nodes")
+	c09otherPreset = core.RegCounter("c09.same_tuple_under_another_preset")
+	c09lru         = core.RegCounter("c09.nodes_with_real_lru")
+	c09stub        = core.RegCounter("c09.nodes_with_adversarial_stub_cache")
 )
 
 func init() {
@@ -240,6 +241,23 @@ func c09Pool(r *core.Run, g *Gen, n int) []c09Tx {
 			add(pk, msg, sig, o, "crafted-honest")
 		}
 	}
+	// the same tuple again under another preset: an expanded or cached key must not
+	// carry a decision made under other options (key reuse across option sets)
+	if mix >= 1 && len(txs) >= 2 {
+		for k := 0; k < 1+t.W(3); k++ {
+			src := txs[t.W(len(txs))]
+			o2 := *src.opts
+			o2.Verify = c09VerifyOpts(g)
+			slot := t.W(len(txs))
+			saved := txs
+			txs = nil
+			add(src.pk, src.msg, src.sig, &o2, src.kind+"+other-preset")
+			nt := txs[0]
+			txs = saved
+			txs[slot] = nt
+			r.Count(c09otherPreset)
+		}
+	}
 	// cancelling pair: two entries whose defects are +delta*B and -delta*B; a batch
 	// equation that fails to randomise per entry accepts them together.
 	if mix == 3 && n >= 2 && t.W(2) == 0 {
@@ -292,7 +310,7 @@ func runC09(e *Env, r *core.Run) {
 	}
 	crafted := false
 	for i, x := range txs {
-		if x.kind != "honest" || !x.want {
+		if !strings.HasPrefix(x.kind, "honest") || !x.want {
 			crafted = true
 		}
 		r.Ev("tx%d %s want=%v cofactorless=%v pk=%s sig=%s", i, x.kind, x.want, x.cofactorless, core.Hex8(x.pk), core.Hex8(x.sig))
